@@ -129,7 +129,14 @@ class SimTransport(asyncio.Transport):
         self._conn_lost += 1
         self.sim.rec("tr_close", self.label, self.conn.cid)
         self.conn.closed[self.side] = True
-        self.sim.loop.call_soon(self._call_connection_lost, None)
+        delay = self.sim.decide_slow_close(self)
+        if delay:
+            # buggify: the transport takes a while to close, wait_closed() completes late (legal: a close
+            # handshake is not instantaneous), other tasks run in the meantime
+            self.sim.fault("slow_close")
+            self.sim.loop.call_later(delay, self._call_connection_lost, None)
+        else:
+            self.sim.loop.call_soon(self._call_connection_lost, None)
 
     def abort(self):
         self.close()
